@@ -872,8 +872,15 @@ def c19_known(case, impl, model, spec):
     return "C19-lexical-not-shortest" if seen else None
 
 
+def c19_pre_build(vf):
+    """regenerates coq/theories/Generated/MacroRules.v from the tree under check (the static tie of the rule set)"""
+    import macro_translate
+    return macro_translate.pre_build(vf)
+
+
 PROPS["C19"] = {
     "id": "C19", "family": "c19", "allow_axioms": [],
+    "pre_build": c19_pre_build,
     "known": c19_known,
     "xcheck": "c19",
     "nshards": {"quick": 1, "thorough": 1},
@@ -914,6 +921,16 @@ PROPS["C19"] = {
                 "literal (a `-` not followed by a literal is a hard error), `expr` = literal | -literal | variable | interpolated "
                 "expression | parenthesised expr, `tt` = one token tree; interpolated expr/literal fragments are opaque to token "
                 "patterns. Validated only by compiling and running the generated programs",
+                "the rule set is tied to src/macros.rs by a translator: lib/macro_translate.py (its own tokeniser / token-tree "
+                "builder for Rust, the reading of `$x:frag` and `$( .. ) sep? rep`, the recognition of `name!(..)` and "
+                "`$crate::path(args)` expressions in templates; metavariables numbered in order of first occurrence) regenerates "
+                "coq/theories/Generated/MacroRules.v (src_rules, 41 rules) from the tree under check at the start of every run; "
+                "C19_rules_from_source (rules_tie: src_rules = model_rules) is rebuilt against it and C19_rules_semantics proves "
+                "that one step of the model's dispatcher is one step of a generic interpreter of those rules on invocations "
+                "inv_ok, C19_expand_by_source_rules that whole expansions of user invocations are that interpreter iterated. "
+                "Trusted there: the translator's tokeniser, and that the interpreter / Model/Macro.v describe rustc's "
+                "matcher (validated by the run only). The tie is syntactic: a harmless reordering of rules is reported too "
+                "(no-failing-input-found)",
                 "type inference gives an unsuffixed integer literal the type i32 and a float literal f64 in Value::try_from(..); a "
                 "suffixed literal has the type of its suffix; overflowing_literals (deny-by-default) rejects a literal outside its "
                 "type's range looking at the negation as a whole (-128i8 compiles, 128i8 does not); unsigned literals cannot be "
@@ -952,14 +969,20 @@ _m("C19", "Proved for EVERY document of the domain (arrays and objects nested to
           "corresponding JSON text is the minimal serialisation of that value and the parser model returns exactly that value on "
           "it; hence macro value = parsed value. What is proved is about the RULE MODEL: rustc's macro_rules matcher (first "
           "matching rule wins, fragment classes) is a modelled contract, validated by compiling and running generated programs "
-          "(sampled, since the quantifier is over programs).",
+          "(sampled, since the quantifier is over programs). The rule set itself is tied to the source statically: a translator "
+          "regenerates the 41 rules of src/macros.rs as Coq data on every run, C19_rules_from_source proves them equal to the reference "
+          "rules, and the model's dispatcher is proved to be a generic first-match interpreter of that data (C19_rules_semantics, "
+          "C19_expand_by_source_rules, C19_source_rules_expand).",
    "A float literal passes through its float type: its JSON text is the spelling the float printer gives to the float it "
    "denotes; that function (literal -> spelling; rustc's rounding + lexical) is a universally quantified dependency in the "
    "theorems with an executable reference in the run. "
    "No axioms.",
    "Coq proof (accumulator invariants of the two token munchers by induction on the item list inside a nested induction on "
    "documents; text side by composition with C04/C08) + correspondence on compiled batches of generated json! programs "
-   "(macro value, parsed value, model expansion, model parse, denoted value all compared)")
+   "(macro value, parsed value, model expansion, model parse, denoted value all compared) + a translator tie for the rule "
+   "set: lib/macro_translate.py regenerates the 41 rules of src/macros.rs as Coq data on every run, rules_tie proves them "
+   "equal to the reference rules, and a generic first-match interpreter of that data is proved equal, rule by rule, to the "
+   "model's hand-written dispatcher, and whole expansions to that interpreter iterated (Proofs/MacroInterp.v)")
 
 _m("C16", "Proved for EVERY type environment, type descriptor and datum of the serde data model (bool, i8..u64, f32, f64, char, string, "
           "unit, unit/newtype/tuple/plain structs, option, seq, tuple, maps keyed by strings/integers/chars/unit variants, the four "
